@@ -34,6 +34,43 @@ class Django(SC.Backend):
 BK = Django()
 
 
+FINDING_STRADD = "django:string-add-not-concatenation"
+
+
+def _string_add_unit(terms):
+    """`add` between strings. A wrong answer is attributed to the catalogued finding only when the SAME filter with every string `add`
+    written as concat(...) is answered correctly - anything else wrong with it stays a violation."""
+    django_h.setup()
+    SC.init_now()
+    from vt.refprint import to_odata
+    from vt.dbs.domain import colkey
+    acc = Acc()
+
+    def as_concat(t):
+        return T.replace(t, lambda n: T.call("concat", n[2], n[3]) if n[0] == "BinOp" and n[1][0] == "Add" else n)
+    for term in terms:
+        cols = colkey(typed.fields_of(term))
+        acc.count("states")
+        text = to_odata(term)
+        got = BK.run(text, cols, "shorthand")
+        if isinstance(got, tuple) and got[1] in SC.LIB_REFUSALS:
+            acc.count("executions")
+            acc.outcome(("string-add", "refused"))
+            continue
+        sub = Acc()
+        if SC.judge(sub, BK.name, term, text, cols, got, [], {"layer": "string-add", "variant": "shorthand", "cols": list(cols)}):
+            acc.count("executions")
+            acc.outcome(("string-add", "right"))
+            continue
+        t2 = as_concat(term)
+        sub2 = Acc()
+        ok2 = SC.judge(sub2, BK.name, t2, to_odata(t2), cols, BK.run(to_odata(t2), cols, "shorthand"), [], {})
+        for v in sub.violations:
+            acc.violation(v["cls"], v["case"], finding=FINDING_STRADD if ok2 else None)
+        acc.count("executions")
+    return acc
+
+
 def run(ctx):
     SC.init_now()
     django_h.setup()
@@ -42,6 +79,10 @@ def run(ctx):
     nrf = SC.refusable_layer(ctx, BK)
     ctx.layer("logic-as-comparison-operand", filters=nrf, exhaustive=True,
               note="and/or/not as an operand of eq / ne / a null test: refused with a library exception, or answered with the right rows")
+    sat = SC.string_add_terms()
+    ctx.pmap(_string_add_unit, [sat[i::16] for i in range(16)])
+    nsa = len(sat)
+    ctx.layer("string-add", filters=nsa, exhaustive=True, note="concatenation through `add` (not commutative): every ordered pair of {field, field, literal, literal, empty literal}, nested on either side; refused or right")
     nb = SC.boolean_operand_layer(ctx, BK)
     ctx.layer("boolean-operands", filters=nb, exhaustive=True,
               note="eq/ne between every ordered pair of boolean-valued lookups (comparisons, boolean functions, null tests, in-tests, the boolean field, literals), alone, negated and beside another clause; the bare boolean field as a predicate")
